@@ -11,19 +11,21 @@ def eHi (e : Nat) : Nat := (e >>> 16) &&& 0xFFFFFF
 def eProp (e : Nat) : Nat := (e >>> 8) &&& 0xFF
 def eGc (e : Nat) : Nat := e &&& 0xFF
 
-/-- `propertySearch`: `for to > from { middle := (from + to) / 2; … }` -/
-def searchLoop (t : Array Nat) (r : Nat) (fr to : Nat) (hto : to ≤ t.size) : Nat :=
-  if h : fr < to then
-    let m := (fr + to) / 2
-    have hm : m < t.size := by omega
-    let e := t[m]
-    if r < eLo e then searchLoop t r fr m (by omega)
-    else if eHi e < r then searchLoop t r (m + 1) to hto
-    else e
-  else 0
-termination_by to - fr
+/-- `propertySearch`: `for to > from { middle := (from + to) / 2; … }`. The loop runs at most
+`len(dictionary)` times (`to - from` shrinks every round), which is the fuel; `dictionary[middle]`
+is in range whenever `to ≤ len(dictionary)` (`Proofs/Table.searchLoop_index`). -/
+def searchLoop (t : Array Nat) (r : Nat) : Nat → Nat → Nat → Nat
+  | 0, _, _ => 0
+  | fuel + 1, fr, to =>
+    if fr < to then
+      let m := (fr + to) / 2
+      let e := t.getD m 0
+      if r < eLo e then searchLoop t r fuel fr m
+      else if eHi e < r then searchLoop t r fuel (m + 1) to
+      else e
+    else 0
 
-def propertySearch (t : Array Nat) (r : Nat) : Nat := searchLoop t r 0 t.size (Nat.le_refl _)
+def propertySearch (t : Array Nat) (r : Nat) : Nat := searchLoop t r (t.size + 1) 0 t.size
 
 /-- `property(dictionary, r)` -/
 def property (t : Array Nat) (r : Nat) : Nat := eProp (propertySearch t r)
